@@ -4,7 +4,7 @@ HOOKS = {
     "guard": "verif",
     "enable": "go test -tags verif; white-box drivers are injected with `go test -overlay` (nothing is written under /repo); hook call sites are `if verifOn {...}` with verifOn a constant false unless the tag is set",
     "baseline_off_cmd": "cd /repo && export GOFLAGS=-mod=mod GOPROXY=off GOSUMDB=off GOTOOLCHAIN=local && for m in . v2; do (cd $m && go test -vet=off -count=1 -timeout 25m ./...) ; done",
-    "source_commits": ["ff568a1", "e8b7a00", "18a6704"],
+    "source_commits": ["ff568a1", "e8b7a00", "18a6704", "5cfaf6a"],
     "add_only": True,
 }
 ENGINES = [
@@ -28,13 +28,13 @@ CHECKS = {
 
 _V2 = "TLA+ specs V2Tokenizer/V2TokGen (tokenizer as built), V2Contract/TraceV2 (API contract): TLC model check + TLC-enumerated inputs replayed into the real tokenizer + recorded API histories validated by TLC"
 CHECKS.update({
-    "C01": {"technique": "TLA+ mechanism spec V2Match (candidate stage as built) model-checked and replayed stage by stage into the real functions + recorded Match histories validated by TLC against V2Contract (PlantedFound); plants positioned by white-box tokenisation",
+    "C01": {"technique": "TLA+ mechanism specs V2Match (candidate stage as built) and V2Retain (overlap filter as built; every small candidate set injected into the real match()) model-checked and replayed into the real functions + recorded Match histories validated by TLC against V2Contract (PlantedFound); plants positioned by white-box tokenisation",
             "text": "Every corpus document (all at 0.8, samples at 0.7/0.75/0.9/1.0, plus user documents of q, q+1, 2q words) is planted 1-3 at a time between out-of-vocabulary blocks; TLC accepts the recorded history only if every plant has a match with its type and name, confidence bit-equal to 1.0 and exactly the planted token span and lines.",
             "note": "real documents sampled per threshold; OOV words verified white-box; the candidate stage is an explicit TLC model (V2Match) replayed into the real stage functions on every small pair, the scoring stage is an environment."},
     "C02": {"technique": "TLC lemma (EditLemma: cost of any valid script >= Levenshtein) + TLA+ spec V2Score (diffRange / scoreDiffs as built) model-checked and replayed script by script into the real functions + per-call validation of the library's edit script recorded through the score hook (TraceV2 ScoreOK/Scored)",
             "text": "TLC proves the lemma exhaustively on small sequences; on real inputs every score() call is an event with the script and both token sequences, TLC checks validity, dist = Cost(script), the trimmed prefix/suffix, and that each reported match is backed by such a call with bit-equal confidence, span and lines.",
             "note": "go-diff is an environment whose output is checked per call; sampled inputs."},
-    "C03": {"technique": "TLA+ specs V2Match (InBounds model check) and V2Tokenizer (TLC-enumerated inputs replayed into the real tokenizer: what a word is) + buffer-alignment sweep + recorded Match histories validated by TLC against V2Contract.WellFormed / RetainRet",
+    "C03": {"technique": "TLA+ specs V2Match (InBounds model check), V2Retain (overlap filter: Ordered, NonEmpty; every small candidate set injected into the real match()) and V2Tokenizer (TLC-enumerated inputs replayed into the real tokenizer: what a word is) + buffer-alignment sweep + recorded Match histories validated by TLC against V2Contract.WellFormed / RetainRet",
             "text": "Arbitrary byte inputs, texts edited at rates bracketing 1-threshold, concatenations and scenario files at 7 thresholds and corpora with odd names; TLC evaluates threshold <= confidence <= 1.0 (as ranks), corpus membership, line/token bounds and ordering on every return.",
             "note": "sampled inputs; thresholds below 0.5 on small corpora."},
     "C04": {"technique": "TLA+ specs V2Match / V2Score / V2Runes replayed into the real stage, scoring and id-channel functions (a deterministic spec function is the reference: tie orders, map-ranging rules, id boundaries) + recorded call histories of 5 classifiers x 3 processes validated by TLC (memo of results per input, PureMatch/PureGrow guards incl. the caller's spare capacity)",
